@@ -540,6 +540,49 @@ func TestVFC19Read(t *testing.T) {
 			}
 		}
 	}
+	// frames above the default size (legal once SETTINGS_MAX_FRAME_SIZE was raised, which this server does): read whole, and cut short by a
+	// clean end of input at offsets around every internal boundary - never delivered as a frame, always an error
+	large := 0
+	for _, n := range []int{16385, 20000, 65536, 70001} {
+		payload := make([]byte, n)
+		for i := range payload {
+			payload[i] = byte(i * 7)
+		}
+		for _, typ := range []byte{0 /* DATA */, 0xb /* unknown */} {
+			fb := vfFrameBytes(typ, 1, 1, false, payload)
+			readL := func(data []byte) (fr Frame, err error, pan any) {
+				defer func() {
+					if p := recover(); p != nil {
+						pan = p
+					}
+				}()
+				framer := NewFramer(io.Discard, bytes.NewReader(data))
+				framer.SetMaxReadFrameSize(1 << 20)
+				fr, err = framer.ReadFrame()
+				return
+			}
+			fr, err, pan := readL(fb)
+			large++
+			if pan != nil || err != nil || fr == nil || int(fr.Header().Length) != n {
+				res.violate(map[string]any{"check": "C19", "kind": "read_fields", "frame_type": fmt.Sprint(typ)}, fmt.Sprintf("frame of type %d with %d octets, limit 1 MiB: err=%v panic=%v", typ, n, err, pan), nil)
+			} else if df, ok := fr.(*DataFrame); ok && !bytes.Equal(df.Data(), payload) {
+				res.violate(map[string]any{"check": "C19", "kind": "read_fields", "frame_type": "DATA"}, fmt.Sprintf("DATA frame of %d octets came out with other octets", n), nil)
+			}
+			for _, cut := range []int{9, 10, 9 + 512, 9 + 4096, 9 + 16383, 9 + 16384, 9 + 16385, 9 + n/2, 9 + n - 1} {
+				if cut >= len(fb) {
+					continue
+				}
+				fr, err, pan := readL(fb[:cut])
+				truncs++
+				if pan != nil || err == nil || fr != nil {
+					res.violate(map[string]any{"check": "C19", "kind": "truncated_frame"},
+						fmt.Sprintf("frame of type %d with %d octets cut after %d octets of the frame: delivered=%v err=%v panic=%v", typ, n, cut, fr != nil, err, pan), nil)
+					break
+				}
+			}
+		}
+	}
+	res.Actions["large_frames"] = large
 	res.Paths = res.Steps
 	res.EdgesSeen, res.EdgesTotal = len(g.Edges), len(g.Edges)
 	res.Extra["outcomes_differing_from_implementation_shaped_layer"] = divergent
